@@ -79,10 +79,22 @@ func VerifSVGEmbed(n int) {
 	} else if mode == 2 {
 		m.AddFunc("text/css", verifCSSStub(true))
 	}
-	in := append(append(append(append([]byte("<svg><style>"), p...), "</style><g style=\""...), q...), "\"/></svg>"...)
+	// the style sheet may be wrapped in a CDATA section; the svg minifier itself may be called with the inline parameter
+	// (that is how the html minifier calls it for embedded svg): neither changes how the style sheet is dispatched
+	cdata := vBool("cdata")
+	open, close := "<svg><style>", "</style><g style=\""
+	if cdata {
+		open, close = "<svg><style><![CDATA[", "]]></style><g style=\""
+		vAssume(len(wp) == len(p)) // no surrounding whitespace inside the section
+	}
+	var params map[string]string
+	if vBool("inlineparam") {
+		params = map[string]string{"inline": "1"}
+	}
+	in := append(append(append(append([]byte(open), p...), close...), q...), "\"/></svg>"...)
 	verifCalls = nil
 	w := &vWriter{}
-	err := (&Minifier{}).Minify(m, w, &vReader{b: in}, nil)
+	err := (&Minifier{}).Minify(m, w, &vReader{b: in}, params)
 	out := w.buf
 	vReach("after-call")
 	vOutput("out", out)
